@@ -435,6 +435,17 @@ def write_evidence(pid, tier, seed, coverage, assumptions, wall, violations):
     json.dump(ev, open(os.path.join(out_dir("evidence"), pid + ".json"), "w"), indent=1)
 
 
+def sample_cases(cases, per_stream=1, limit=8):
+    """one case of every stream (the middle one), written out"""
+    by = {}
+    for c, m in cases:
+        by.setdefault(m.get("stream", "?"), []).append(c)
+    out = []
+    for st, cs in by.items():
+        out.append({"stream": st, "case": cs[len(cs) // 2][:700]})
+    return out[:limit]
+
+
 def corpus_cases(pid):
     """corpus/<ID>/*.case: first non-comment line is the case; '# key: value' lines are metadata."""
     d = os.path.join(ROOT, "corpus", pid)
@@ -481,6 +492,18 @@ def standard_check(mod, tier, seed, replay=None):
     hits = forbidden_scan()
     if hits:
         problems.append({"kind": "forbidden-words", "hits": hits})
+    coqchk = None
+    if ok and pr["ok"] and tier == "thorough" and not replay and not getattr(mod, "DEV", False):
+        # independent re-check of the compiled Props file and everything it depends on
+        limit = getattr(mod, "COQCHK_TIMEOUT", 1500)
+        rc, out = sh("flock -s %s/.lock coqchk -silent -o -Q . Parsley Parsley.Props.%s" % (COQ, pid), cwd=COQ, timeout=limit)
+        m = re.search(r"\* Axioms:(.*?)\n\s*\n", out, re.S)
+        coqchk = {"rc": rc, "axioms": " ".join((m.group(1) if m else "?").split())}
+        if rc == 124:
+            coqchk["note"] = "coqchk exceeded %ds (it re-checks VM casts with the lazy machine); not counted as a failure" % limit
+        elif rc != 0:
+            problems.append({"kind": "coqchk", "log": out[-3000:]})
+        log("%s: coqchk rc=%d axioms=%s" % (pid, rc, coqchk["axioms"]))
     # 2. Go driver from the working tree
     gok, gout, exe = go_build(pid)
     if not gok:
@@ -594,11 +617,12 @@ def standard_check(mod, tier, seed, replay=None):
         "distinct_nontrivial": sum(1 for v in distinct.values() if v),
         "rule": getattr(mod, "RULE", ""),
         "streams": streams,
-        "samples": [c[:600] for c in lines[:2] + lines[-2:]],
+        "samples": sample_cases(cases),
         "model_vs_implementation_disagreements": len(set(disagree)),
         "oracle_violations": len(set(violate)),
         "exhaustive": bool(getattr(mod, "EXHAUSTIVE", {}).get(tier, False)),
         "cut_by_budget": len(BUDGET_CUT),
+        "coqchk": coqchk,
         "distribution": mod.distribution(cases, obs) if hasattr(mod, "distribution") else {},
     }
     write_evidence(pid, tier, seed, cov, getattr(mod, "ASSUMPTIONS", []), time.time() - t0, nviol)
